@@ -1434,6 +1434,11 @@ op(Priority, OpSpec, Op) :-
     ;  valid_op(Op), op_priority(Priority), op_specifier(OpSpec) ->
        '$op'(Priority, OpSpec, Op)
     ;  list_of_op_atoms(Op), op_priority(Priority), op_specifier(OpSpec) ->
+       (  lists:member('|', Op),
+          \+ ( lists:member(OpSpec, [xfx, xfy, yfx]), ( Priority >= 1001 ; Priority == 0 ) ) ->
+          throw(error(permission_error(create, operator, (|)), op/3)) % Cor.2, as in the Op == '|' branch
+       ;  true
+       ),
        lists:maplist(builtins:op_(Priority, OpSpec), Op),
        !
     ;  throw(error(type_error(list, Op), op/3)) % 8.14.3.3 f)
